@@ -477,7 +477,19 @@ class TheJoker:
             with model:
                 pm.Deterministic("t_peri", P_day * M0_rad / (2 * np.pi))
 
+        built_for = (x, y, err, np.asarray(ids), str(rv_unit))
         if "obs" in model.named_vars:
+            # The model already holds a likelihood. It can be used again only
+            # for the data it was set up with: it cannot take another data set
+            previous = getattr(model, "_thejoker_mcmc_data", ())
+            if len(previous) != len(built_for) or not all(
+                np.array_equal(a, b) for a, b in zip(previous, built_for)
+            ):
+                msg = (
+                    "This model was already set up for MCMC with other data. Make a "
+                    "new prior (and model) to continue sampling for another data set."
+                )
+                raise ValueError(msg)
             return mcmc_init
 
         with model:
@@ -526,5 +538,7 @@ class TheJoker:
             )
 
             pm.Deterministic("ln_prior", model.logp() - lnlike)
+
+        model._thejoker_mcmc_data = built_for
 
         return mcmc_init
